@@ -20,7 +20,8 @@ MIN_NONTRIVIAL = {"quick": 3000, "thorough": 40000}
 REQUIRED_COUNTERS = {"origin_checked": {"quick": 5000, "thorough": 50000},
                      "running_frames_checked": {"quick": 100, "thorough": 1000},
                      "recursive_running_targets": {"quick": 50, "thorough": 500},
-                     "outermost_error_cases": {"quick": 40, "thorough": 400}}
+                     "outermost_error_cases": {"quick": 40, "thorough": 400},
+                     "outermost_option_combinations": {"quick": 200, "thorough": 2000}}
 SHARD_TIMEOUT = {"quick": 400, "thorough": 5400}
 INTERPS = ["3.12", "3.11", "3.10", "3.9"]
 
@@ -347,6 +348,78 @@ def worker(spec):
             res.violation(kind="extract_outermost raised %r instead of the recorded error" % (ex,), interp=interp)
         g1.close()
         g2.close()
+
+    # all option combinations: the first frame's contexts (children included) must agree --------------
+    from stackscope import elaborate_context, extract_child
+
+    class TaskLike(object):
+        """stands for an async child task: unwraps to a parked generator"""
+
+    @unwrap_stackitem.register(TaskLike)
+    def _unwrap_tasklike(t):
+        return t.gen
+
+    class NurseryLike(object):
+        def __init__(self, tasks):
+            self.tasks = tasks
+
+        def __enter__(self):
+            return self
+
+        def __exit__(self, *e):
+            return False
+
+    @elaborate_context.register(NurseryLike)
+    def _elab_nurserylike(mgr, ctx):
+        ctx.children = [extract_child(t, for_task=True) for t in mgr.tasks]
+
+    def holder(n):
+        with n:
+            yield 1
+
+    def deep_eq(a, b):
+        """structural equality of Context lists including child Stacks' frames"""
+        if len(a) != len(b):
+            return False
+        for ca, cb in zip(a, b):
+            if ca.obj is not cb.obj or ca.is_async != cb.is_async or ca.is_exiting != cb.is_exiting \
+                    or ca.varname != cb.varname or ca.start_line != cb.start_line or len(ca.children) != len(cb.children):
+                return False
+            for xa, xb in zip(ca.children, cb.children):
+                fa = [f.pyframe for f in getattr(xa, "frames", [])]
+                fb = [f.pyframe for f in getattr(xb, "frames", [])]
+                if fa != fb or getattr(xa, "root", None) is not getattr(xb, "root", None):
+                    return False
+        return True
+
+    for rep in range(spec["reps"]):
+        tasks = []
+        for _ in range(2):
+            t = TaskLike()
+            t.gen = suspended_gen()
+            next(t.gen)
+            tasks.append(t)
+        h = holder(NurseryLike(tasks))
+        next(h)
+        for wc in (True, False):
+            for rc in (True, False):
+                res.evaluations += 1
+                res.count("outermost_option_combinations")
+                res.nontrivial(interp, "options", wc, rc)
+                s = stackscope.extract(h, with_contexts=wc, recurse_child_tasks=rc)
+                fo = stackscope.extract_outermost(h, with_contexts=wc, recurse_child_tasks=rc)
+                f0 = s.frames[0]
+                if fo.pyframe is not f0.pyframe or fo.lineno != f0.lineno or not deep_eq(list(fo.contexts), list(f0.contexts)):
+                    res.violation(kind="extract_outermost(x, options) differs from extract(x, options).frames[0]",
+                                  with_contexts=wc, recurse_child_tasks=rc,
+                                  outermost_children=[len(getattr(c, "frames", [])) for cx in fo.contexts for c in cx.children],
+                                  extract_children=[len(getattr(c, "frames", [])) for cx in f0.contexts for c in cx.children],
+                                  interp=interp)
+                if wc and rc and not any(getattr(c, "frames", None) for cx in f0.contexts for c in cx.children):
+                    res.violation(kind="harness: recursion requested but no populated child stack", interp=interp)
+        h.close()
+        for t in tasks:
+            t.gen.close()
 
     # greenlets (3.12 only) --------------------------------------------------------------------------
     try:
